@@ -191,6 +191,9 @@ StartEv(m) ==
 
 (***************************************************************************)
 (* Queue bookkeeping for trigger / is_full / is_buffered                    *)
+(* eclosing: events the monitor regards as finished while the event machine *)
+(* may still be winding them up; emptied at the first sign of life of a     *)
+(* later event (the machine is strictly sequential) and at quiescence.      *)
 (***************************************************************************)
 TriggerRet(m, c, t, ret) ==
   IF m.lost THEN m
@@ -216,6 +219,8 @@ BufferedRet(m, c, t, ret) ==
   ELSE m
 ProcRet(m, fsm, ret) ==
   IF m.lost \/ m.eunc \/ fsm # 1 THEN m
+  ELSE IF m.eph # "idle" /\ ret = m.ec /\ ~(\E x \in m.eclosing : x[1] = ret) THEN [m EXCEPT !.emaybe = 0]
+          \* the observer names the event in progress (and no earlier event on that command can still be closing): it has left the queue
   ELSE IF ret = -1 \/ (m.eph # "idle" /\ ret = m.ec) \/ (\E x \in m.eclosing : x[1] = ret) THEN m
   ELSE AddBad(m, "C13", "processed command is not an event in progress")
 
@@ -274,7 +279,7 @@ FinalDone(m, u, body) ==
 
 Commit(m, h) ==
   LET u == IF h.who = "c" THEN Head(m.expC) ELSE Head(m.expE)
-      m1 == IF h.who = "c" THEN [m EXCEPT !.expC = Tail(@), !.H = {}, !.units = @ + 1] ELSE [m EXCEPT !.expE = Tail(@), !.H = {}, !.units = @ + 1, !.emaybe = 0]
+      m1 == IF h.who = "c" THEN [m EXCEPT !.expC = Tail(@), !.H = {}, !.units = @ + 1] ELSE [m EXCEPT !.expE = Tail(@), !.H = {}, !.units = @ + 1, !.emaybe = 0, !.eclosing = {}]
   IN IF u.fin THEN FinalDone(m1, u, h.body)
      ELSE IF h.who = "e" /\ u.last THEN StartEv(EvDone(m1))
      ELSE m1
@@ -421,7 +426,7 @@ OnCmdE(m, e) ==
        AddBad(m, IF e.data = m.eprev THEN "C06,C10"
                  ELSE IF e.size = Len(e.data) /\ e.aux = m.cfg.ucap THEN (IF want = "read" THEN (IF e.data = m.eunm THEN "C08" ELSE "C07") ELSE "C19") ELSE "C06",
               <<"event handler arguments", e.data, e.size, e.aux, "expected", m.etxt>>)
-  ELSE LET m0 == [m EXCEPT !.emaybe = 0, !.eprev = IF e.ret \in {RET_NEXT, RET_DATA_NEXT} /\ e.data2 # e.data THEN e.data2 ELSE <<-1>>]
+  ELSE LET m0 == [m EXCEPT !.emaybe = 0, !.eclosing = {}, !.eprev = IF e.ret \in {RET_NEXT, RET_DATA_NEXT} /\ e.data2 # e.data THEN e.data2 ELSE <<-1>>]
            m1 == MonNested(m0, e.in, "e")
            r == e.ret
            dataU(last) == EvUnit(m, {e.data2}, last, "C10", -1)
@@ -442,7 +447,7 @@ OnVr(m, e) ==
           LET m1 == MonNested(m, e.in, "c") IN
           IF m1.lost THEN m1 ELSE IF e.r # 0 THEN ExpectFinal([m1 EXCEPT !.lastfail = <<e.c, e.v>>], T_ERROR, "C10") ELSE AdvRead([m1 EXCEPT !.cvr = TRUE])
      ELSE IF forE THEN
-          LET m1 == MonNested([m EXCEPT !.emaybe = 0], e.in, "e") IN
+          LET m1 == MonNested([m EXCEPT !.emaybe = 0, !.eclosing = {}], e.in, "e") IN
           IF m1.lost THEN m1 ELSE IF e.r # 0 THEN StartEv(EvDone([m1 EXCEPT !.lastfail = <<e.c, e.v>>])) ELSE AdvEvRead([m1 EXCEPT !.evr = TRUE])
      ELSE IF m.lastfail = <<e.c, e.v>> THEN AddBad(m, "C10", <<"variable callback failed but the processing was not aborted", e.c, e.v>>)
      ELSE IF m.eunc THEN Unclassified(m)
